@@ -120,9 +120,10 @@ Ltac break_match :=
   | |- context [match ?x with _ => _ end] => destruct x eqn:?
   end.
 
-(* a regular-file entry carries the inode group lstat reported for its name *)
+(* a regular-file entry with an inode group carries the group lstat reported for its own name
+   (entries without a group -- link count 1, or contents from a src= file -- say nothing) *)
 Definition ino_ok (t : tree) (m : emap) : Prop :=
-  forall k g, find k m = Some (EFile g) -> lstat t k = Some (NFile g).
+  forall k g, find k m = Some (EFile (Some g)) -> lstat t k = Some (NFile (Some g)).
 
 Record trans (t : tree) (S : bytes -> Prop) (m m' : emap) : Prop := MkTrans {
   tr_ext : forall k, mem k m = true -> mem k m' = true;
@@ -146,7 +147,7 @@ Proof.
   intros k H. apply b in H as [H|H]; auto.
 Qed.
 
-Lemma trans_add t n e m : (forall g, e = EFile g -> lstat t n = Some (NFile g)) -> trans t (eq n) m (add n e m).
+Lemma trans_add t n e m : (forall g, e = EFile (Some g) -> lstat t n = Some (NFile (Some g))) -> trans t (eq n) m (add n e m).
 Proof.
   intros He. constructor.
   - intros k H. rewrite mem_add. now destruct (feq k n).
@@ -173,8 +174,14 @@ Proof.
 Qed.
 Lemma add_single_trans t li n m m' : add_single t li n m = Ok m' -> trans t (eq n) m m'.
 Proof.
-  intros H. apply add_single_spec in H as [(_ & _ & ->)|(e & -> & He)]; [apply trans_refl|now apply trans_add].
+  intros H. apply add_single_spec in H as [(_ & _ & ->)|(e & -> & He)]; [apply trans_refl|].
+  apply trans_add. intros g Hg. now apply He.
 Qed.
+(* a src= line: the name becomes a regular-file entry without an inode group *)
+Lemma add_src_spec t li s m m' : add_src t li s m = Ok m' -> m' = add (li_name li) (EFile None) m.
+Proof. unfold add_src. destruct (src_lstat t s); [|discriminate]. intros H. now injection H as <-. Qed.
+Lemma add_src_trans t li s m m' : add_src t li s m = Ok m' -> trans t (eq (li_name li)) m m'.
+Proof. intros H. apply add_src_spec in H as ->. apply trans_add. intros g Hg. discriminate Hg. Qed.
 (* unless absent=skip excuses an absent object, the name is a member afterwards *)
 Lemma add_single_adds t li n m m' : add_single t li n m = Ok m' ->
   (li_skip li = true -> lstat t n <> None) -> mem n m' = true.
@@ -208,7 +215,10 @@ Definition op_targets (t : tree) (li : lineinfo) : list bytes :=
 
 Lemma add_files_trans t li m m' : add_files t li m = Ok m' -> trans t (fun k => In k (op_targets t li)) m m'.
 Proof.
-  unfold add_files, op_targets, add_wild. destruct (li_wild li).
+  unfold add_files, op_targets, add_wild. destruct (li_src li) as [s|].
+  { destruct (li_wild li); [discriminate|].
+    intros H. apply add_src_trans in H. eapply trans_weaken; [|exact H]. intros k <-. now left. }
+  destruct (li_wild li).
   - destruct (targets_wild t li) as [|x r] eqn:E; [discriminate|]. apply add_all_trans.
   - intros H. apply add_single_trans in H. eapply trans_weaken; [|exact H]. intros k <-. now left.
 Qed.
@@ -216,7 +226,10 @@ Qed.
 Lemma add_files_adds t li m m' : add_files t li m = Ok m' ->
   forall n, In n (op_targets t li) -> (li_skip li = true -> lstat t n <> None) -> mem n m' = true.
 Proof.
-  unfold add_files, op_targets, add_wild. destruct (li_wild li).
+  unfold add_files, op_targets, add_wild. destruct (li_src li) as [s|].
+  { destruct (li_wild li); [discriminate|].
+    intros H n [<-|[]] _. apply add_src_spec in H as ->. rewrite mem_add. now rewrite feq_refl. }
+  destruct (li_wild li).
   - destruct (targets_wild t li) as [|x r] eqn:E; [discriminate|]. intros H n Hin Hs.
     eapply add_all_adds; eauto.
   - intros H n [<-|[]] Hs. eapply add_single_adds; eauto.
